@@ -305,7 +305,13 @@ Definition writes_of (rid : nat) (s : state) : list envelope := filter (src_is r
 (** The client of client/src: folds the update messages of one subscription with merge.ts. *)
 Definition client_fold (msgs : list json) : json := fold_left (fun st d => merge_js d st) msgs JNull.
 
-Definition client_state (rid : nat) (s : state) : json := client_fold (map e_msg (writes_of rid s)).
+Definition is_update (e : envelope) : bool := match e_type e with EUpdate => true | _ => false end.
+
+(** The update messages rerunner [rid] sent, oldest first. *)
+Definition updates_of (rid : nat) (s : state) : list envelope :=
+  filter (fun e => src_is rid e && is_update e) (out_of s).
+
+Definition client_state (rid : nat) (s : state) : json := client_fold (map e_msg (updates_of rid s)).
 
 (** * Correspondence cases *)
 
